@@ -423,16 +423,25 @@ def subhist_one(dll, hist):
         st.add_ca(0x10, name_value=0x4711)
         ghost = bus.ghost_node()
         calls = []
-        cbs = [(lambda priority, pgn, sa, timestamp, data, i=i: calls.append(i)) for i in range(3)]
+        class App:
+            def __init__(self, i):
+                self.i = i
+
+            def on_message(self, priority, pgn, sa, timestamp, data):
+                calls.append(self.i)
+        apps = [App(i) for i in range(3)]
+        fns = [(lambda priority, pgn, sa, timestamp, data, i=i: calls.append(i)) for i in range(3)]
+        # listener 1 is a bound method of an application object: every access makes a new, equal object
+        cbs = [(lambda: fns[0]), (lambda: apps[1].on_message), (lambda: fns[2])]
         reg = [None, None, None]
         w.run_for(0.005)
         probs = []
         for n, op in enumerate(hist):
             if op[0] == 'sub':
-                st.ecu.subscribe(cbs[op[1]], op[2])
+                st.ecu.subscribe(cbs[op[1]](), op[2])
                 reg[op[1]] = op[2]
             else:
-                st.ecu.unsubscribe(cbs[op[1]])
+                st.ecu.unsubscribe(cbs[op[1]]())
                 reg[op[1]] = None
             for da in SUBH_ADDRS + (255,):
                 del calls[:]
